@@ -40,6 +40,8 @@ const smtHeader = `(declare-datatypes ((Slice 0)) (((mk_slice (s_arr Int) (s_off
 var headerAxioms = []struct{ sym, text string }{
 	{"sl_idx", "(assert (forall ((s Slice) (i Int)) (! (= (sl_idx s i) (+ (s_off s) i)) :pattern ((sl_idx s i)))))\n"},
 	{"box_slice", "(assert (forall ((s Slice)) (! (= (unbox_slice (box_slice s)) s) :pattern ((box_slice s)))))\n"},
+	// string(b) of b = []byte(s) gives s back (only added when a query converts in both directions)
+	{"bytes_str", "(assert (forall ((s String)) (! (= (bytes_str (str_bytes s) 0 (str.len s)) s) :pattern ((str_bytes s)))))\n"},
 }
 
 // canonical short name for a package path
